@@ -187,6 +187,60 @@ func typeAt(t types.Type, p sym.Path) types.Type {
 }
 
 // Spec builds the verification spec (requires assumed, ensures/frame proved) for the contract's own function.
+// Specs returns the verification runs of the contract: the general one and one per combination of lencase values.
+func (fc *FuncContract) Specs() []*sym.FnSpec {
+	if len(fc.LenCases) == 0 {
+		return []*sym.FnSpec{fc.Spec()}
+	}
+	base := fc.Spec()
+	req := base.Requires
+	base.Requires = func(fx *sym.FnExec, st *sym.State, args []sym.Value) {
+		req(fx, st, args)
+		env := &Env{Fx: fx, St: st, Old: st, Vars: fc.vars(fx, args, nil), Set: fc.Set, Owner: fc.Key, Assume: true}
+		var all []*Term
+		for _, lc := range fc.LenCases {
+			tv := env.eval(lc.Expr)
+			l := tv.V.(sym.Scalar).T
+			var any []*Term
+			for _, v := range lc.Vals {
+				any = append(any, Eq(l, BVC(l.S.W, v)))
+			}
+			all = append(all, Or(any...))
+		}
+		st.Assume(Not(And(all...)))
+	}
+	base.Tag = "other lengths"
+	out := []*sym.FnSpec{base}
+	if fc.Flags["lenonly"] {
+		// the requires clauses restrict the lengths to the listed cases
+		out = nil
+	}
+	var rec func(i int, pin map[string]uint64, tag string)
+	rec = func(i int, pin map[string]uint64, tag string) {
+		if i == len(fc.LenCases) {
+			sp := fc.Spec()
+			sp.PinLen = pin
+			sp.Tag = tag
+			out = append(out, sp)
+			return
+		}
+		for _, v := range fc.LenCases[i].Vals {
+			p2 := map[string]uint64{}
+			for k, x := range pin {
+				p2[k] = x
+			}
+			p2[fc.LenCases[i].Name] = v
+			t2 := tag
+			if t2 != "" {
+				t2 += ","
+			}
+			rec(i+1, p2, fmt.Sprintf("%slen(%s)=%d", t2, fc.LenCases[i].Name, v))
+		}
+	}
+	rec(0, map[string]uint64{}, "")
+	return out
+}
+
 func (fc *FuncContract) Spec() *sym.FnSpec {
 	skol := map[string]*Term{}
 	return &sym.FnSpec{
